@@ -22,6 +22,7 @@ META = {
                     "link-mass statics: weights act at the published joint frame times the link's centre of mass; moment about each "
                     "joint axis obtained by differentiating those published positions"],
 }
+REQUIRED_CLASSES = ["theta:within_5e-4_of_a_limit"]
 REQUIRED_CLAUSES = ["space", "body", "link", "eetrans", "numerical", "velocity", "statics.power", "statics.inverse", "statics.linkmass"]
 
 
@@ -43,8 +44,12 @@ def gen_case(rng):
     model = armlib.ArmModel(desc, base)
     n = model.n
     h = float(10 ** rng.uniform(-4, math.log10(2e-3)))
-    lo, hi = model.lo + 3 * h, model.hi - 3 * h
+    lo, hi = model.lo + 1.5 * h, model.hi - 1.5 * h
     th = rng.uniform(lo, hi)
+    if rng.random() < 0.2:
+        # inside the limits but closer to one than the library's own difference step (5e-4)
+        near = np.where(rng.random(n) < 0.5, hi - rng.uniform(0, 1, n) * max(0.0, 6e-4 - 1.5 * h), lo + rng.uniform(0, 1, n) * max(0.0, 6e-4 - 1.5 * h))
+        th = np.where(rng.random(n) < 0.4, near, th)
     if rng.random() < 0.15:
         th = np.where(rng.random(n) < 0.5, 0.0, th)
     th = np.where((np.abs(th) > 0) & (np.abs(th) < 1e-2), 0.0, th)     # keep th +- h out of the exp cut-off band too
@@ -223,6 +228,10 @@ def run_shard(spec, ctx):
         case = gen_case(ctx.rng)
         th = np.array(case["theta"])
         ctx.cls("arm:" + case["arm"]["kind"])
+        _m = armlib.ArmModel(case["arm"], case["base"])
+        _t = np.array(case["theta"], dtype=float)
+        if np.any((_m.hi - _t < 5e-4) | (_t - _m.lo < 5e-4)):
+            ctx.cls("theta:within_5e-4_of_a_limit")
         ctx.case({"arm": case["arm"].get("file", case["arm"]["kind"]), "S": gen.quant(case["arm"].get("S", []), 1e-6)[:12],
                   "b": gen.quant(case["base"], 1e-6), "p": [o["op"] for o in case["prefix"]], "th": gen.quant(th, 1e-6)},
                  bool(len(th) >= 2 and np.count_nonzero(th) >= 2), sample_every=0)
